@@ -1,13 +1,656 @@
 package mainchain
 
 import (
+	"encoding/hex"
 	"encoding/json"
+	"math/big"
 	"math/rand"
+	"path/filepath"
+	"slices"
+	"sort"
+	"strconv"
+	"strings"
 	"testing"
+
+	"github.com/nspcc-dev/neo-go/pkg/core/native/nativenames"
+	"github.com/nspcc-dev/neo-go/pkg/core/native/noderoles"
+	"github.com/nspcc-dev/neo-go/pkg/core/state"
+	"github.com/nspcc-dev/neo-go/pkg/crypto/keys"
+	"github.com/nspcc-dev/neo-go/pkg/encoding/bigint"
+	"github.com/nspcc-dev/neo-go/pkg/neotest"
+	"github.com/nspcc-dev/neo-go/pkg/util"
+	"github.com/nspcc-dev/neo-go/pkg/vm/stackitem"
+	"github.com/nspcc-dev/neo-go/pkg/wallet"
+	"github.com/stretchr/testify/require"
 
 	"verif/harness/chain"
 )
 
+// GStep is one invocation in the vocabulary of MainChainGas.tla (the ev record). Amounts are 3-limb
+// little-endian numbers in base 10^6.
+type GStep struct {
+	Act string   `json:"act"`
+	S   []string `json:"S"`
+	U   string   `json:"u"`
+	V   string   `json:"v"`
+	Amt []int64  `json:"amt"`
+	W   int64    `json:"w"`
+	K   string   `json:"k"`
+	ID  string   `json:"id"`
+}
+
+// GScenario is a sequence of steps on a fresh deployment.
+type GScenario struct {
+	Notary bool    `json:"notary"`
+	NS     int     `json:"ns"`  // keys stored in the NeoFS contract
+	NC     int     `json:"nc"`  // chain committee size
+	Idx    int     `json:"idx"` // index of the Alphabet contract
+	Src    string  `json:"src"`
+	Steps  []GStep `json:"steps"`
+}
+
+const limbBase = 1_000_000
+
+var (
+	gasUsers = []string{"u1", "u2"}
+	gasCands = []string{"c1", "c2"}
+	gasKeys  = []string{"k1", "k2", "k3"}
+	gasIR    = []string{"r1", "r2", "r3", "r4", "r5", "r6", "r7"}
+	gasCtrs  = []string{"neofs", "proc", "proxy", "alph"}
+)
+
+func toBig(l []int64) *big.Int {
+	b := new(big.Int)
+	for i := len(l) - 1; i >= 0; i-- {
+		b.Mul(b, big.NewInt(limbBase))
+		b.Add(b, big.NewInt(l[i]))
+	}
+	return b
+}
+
+func fromInt(x int64) []int64 { return []int64{x % limbBase, x / limbBase % limbBase, x / limbBase / limbBase} }
+
+type gworld struct {
+	t      *testing.T
+	c      *chain.Chain
+	sc     *GScenario
+	h      map[string]util.Uint160 // account name -> script hash
+	acctN  *names                  // script hash (BE) -> account name
+	sg     map[string]neotest.Signer
+	keyN   *names // candidate public keys
+	idN    *names
+	irPubs [][]byte
+	token  util.Uint160
+	roles  util.Uint160
+	bad    []string
+}
+
+func (w *gworld) toL(b *big.Int, what string) []int64 {
+	if b == nil || b.Sign() < 0 || b.Cmp(new(big.Int).Exp(big.NewInt(10), big.NewInt(18), nil)) >= 0 {
+		w.bad = append(w.bad, what)
+		return []int64{0, 0, 0}
+	}
+	x := new(big.Int).Set(b)
+	out := make([]int64, 3)
+	m := new(big.Int)
+	for i := 0; i < 3; i++ {
+		x.QuoRem(x, big.NewInt(limbBase), m)
+		out[i] = m.Int64()
+	}
+	return out
+}
+
+func newGWorld(t *testing.T, sc *GScenario, seed int64) *gworld {
+	c := chain.New(t, sc.NC, seed)
+	w := &gworld{t: t, c: c, sc: sc, h: map[string]util.Uint160{}, acctN: newNames(), sg: map[string]neotest.Signer{}, keyN: newNames(),
+		idN: newNames()}
+	reg := func(n string, h util.Uint160) {
+		w.h[n] = h
+		w.acctN.reg(n, h.BytesBE())
+	}
+	for _, u := range gasUsers {
+		w.sg[u] = c.NewUser(u, 100000_0000_0000)
+		c.FundNEO(w.sg[u].ScriptHash(), 1000)
+		reg(u, w.sg[u].ScriptHash())
+	}
+	for _, cn := range gasCands {
+		w.sg[cn] = c.NewUser(cn, 100_0000_0000)
+		reg(cn, w.sg[cn].ScriptHash())
+		w.keyN.reg(cn, chain.Pub(w.sg[cn]))
+	}
+	var stored []any
+	var storedPriv []*keys.PrivateKey
+	for i, k := range gasKeys {
+		w.sg[k] = c.NewUser(k, 0)
+		reg(k, w.sg[k].ScriptHash())
+		if i < sc.NS {
+			stored = append(stored, chain.Pub(w.sg[k]))
+			storedPriv = append(storedPriv, chain.Priv(w.sg[k]))
+		}
+	}
+	// 2/3+1 multi-signature account of the STORED keys
+	pubs := make(keys.PublicKeys, len(storedPriv))
+	for i := range storedPriv {
+		pubs[i] = storedPriv[i].PublicKey()
+	}
+	accs := make([]*wallet.Account, len(storedPriv))
+	for i := range storedPriv {
+		accs[i] = wallet.NewAccountFromPrivateKey(storedPriv[i])
+		require.NoError(t, accs[i].ConvertMultisig(len(storedPriv)*2/3+1, slices.Clone(pubs)))
+	}
+	w.sg["STORED"] = neotest.NewMultiSigner(accs...)
+	for _, r := range gasIR {
+		k := chain.DetKey(seed, "ir|"+r)
+		w.irPubs = append(w.irPubs, k.PublicKey().Bytes())
+		reg(r, k.PublicKey().GetScriptHash())
+	}
+	w.sg["X"] = c.NewUser("stranger", 0)
+	for i := 0; i < 8; i++ {
+		if i < sc.NC {
+			w.sg["m"+strconv.Itoa(i)] = c.Members[i]
+		} else {
+			w.sg["m"+strconv.Itoa(i)] = c.NewUser("nomember"+strconv.Itoa(i), 0)
+		}
+	}
+	w.idN.reg("i1", []byte("id-1"))
+	w.idN.reg("i2", []byte("id-2"))
+
+	proc := c.Compile("processing")
+	nf := c.Compile("neofs")
+	c.Deploy(nf, []any{!sc.Notary, proc.Hash, stored, []any{"WithdrawFee", int64(100_0000), "InnerRingCandidateFee", int64(1_0000_0000)}})
+	c.Deploy(proc, []any{nf.Hash})
+	proxy := c.Compile("proxy")
+	c.Deploy(proxy, nil)
+	alph := c.Compile("alphabet")
+	c.Deploy(alph, []any{false, util.Uint160{9}, proxy.Hash, "Az", int64(sc.Idx), int64(sc.NC)})
+	tok := c.CompileDir(filepath.Join(harnessRoot(), "contracts", "mainchaintoken"))
+	c.Deploy(tok, nil)
+	w.token = tok.Hash
+	reg("neofs", nf.Hash)
+	reg("proc", proc.Hash)
+	reg("proxy", proxy.Hash)
+	reg("alph", alph.Hash)
+	w.roles = c.E.NativeHash(t, nativenames.Designation)
+	return w
+}
+
+// signers maps model signer names to signers; the recorded set is normalised: when the committee account
+// coincides with the Alphabet account (n in {1,4}) either name implies the other.
+func (w *gworld) signers(S []string) ([]neotest.Signer, []string) {
+	var out []neotest.Signer
+	set := map[string]bool{}
+	same := w.c.Cmt.ScriptHash() == w.c.Alpha.ScriptHash()
+	for _, s := range S {
+		set[s] = true
+		switch s {
+		case "ALPHA":
+			out = append(out, w.c.Alpha)
+			if same {
+				set["CMT"] = true
+			}
+		case "CMT":
+			out = append(out, w.c.Cmt)
+			if same {
+				set["ALPHA"] = true
+			}
+		default:
+			sg, ok := w.sg[s]
+			require.True(w.t, ok, "unknown signer %s", s)
+			out = append(out, sg)
+		}
+	}
+	names := make([]string, 0, len(set))
+	for s := range set {
+		names = append(names, s)
+	}
+	sort.Strings(names)
+	return out, names
+}
+
+func (w *gworld) acct(n string) util.Uint160 {
+	h, ok := w.h[n]
+	require.True(w.t, ok, "unknown account %q", n)
+	return h
+}
+
+func (w *gworld) exec(st GStep) chain.Rec {
+	sg, names := w.signers(st.S)
+	c := w.c
+	g := gasHash(c)
+	amt := toBig(st.Amt)
+	var r *chain.Result
+	switch st.Act {
+	case "deposit":
+		var data any
+		switch st.K {
+		case "none":
+			data = nil
+		case "empty":
+			data = []byte{}
+		case "h20":
+			data = w.acct(st.V).BytesBE()
+		case "b19":
+			data = make([]byte, 19)
+		case "b21":
+			data = make([]byte, 21)
+		case "magic":
+			data = []byte{0x57, 0x0b}
+		default:
+			w.t.Fatalf("unknown data kind %q", st.K)
+		}
+		r = c.Run(g, sg, "transfer", w.acct(st.U), w.acct("neofs"), amt, data)
+	case "withdraw":
+		r = c.Run(w.acct("neofs"), sg, "withdraw", w.acct(st.U), st.W)
+	case "cheque":
+		r = c.Run(w.acct("neofs"), sg, "cheque", w.idN.val(w.t, st.ID), w.acct(st.V), amt, []byte("lock"))
+	case "candAdd":
+		r = c.Run(w.acct("neofs"), sg, "innerRingCandidateAdd", w.keyN.val(w.t, st.V))
+	case "candRemove":
+		r = c.Run(w.acct("neofs"), sg, "innerRingCandidateRemove", w.keyN.val(w.t, st.V))
+	case "setFee":
+		key := "WithdrawFee"
+		if st.K == "cfee" {
+			key = "InnerRingCandidateFee"
+		}
+		r = c.Run(w.acct("neofs"), sg, "setConfig", w.idN.val(w.t, st.ID), []byte(key), bigint.ToBytes(amt)) // the VM encoding of the integer
+	case "designate":
+		var ks []any
+		for i := 0; i < int(st.W) && i < len(w.irPubs); i++ {
+			ks = append(ks, w.irPubs[i])
+		}
+		r = c.Run(w.roles, sg, "designateAsRole", int64(noderoles.NeoFSAlphabet), ks)
+	case "emit":
+		r = c.Run(w.acct("alph"), sg, "emit")
+	case "pay":
+		switch st.K {
+		case "GAS":
+			r = c.Run(g, sg, "transfer", w.acct(st.U), w.acct(st.V), amt, nil)
+		case "NEO":
+			r = c.Run(neoHash(c), sg, "transfer", w.acct(st.U), w.acct(st.V), st.W, nil)
+		case "FOREIGN":
+			r = c.Run(w.token, sg, "pay", w.acct(st.V), w.acct(st.U), amt, nil)
+		case "DIRECT":
+			r = c.Run(w.acct(st.V), sg, "onNEP17Payment", w.acct(st.U), amt, nil)
+		default:
+			w.t.Fatalf("unknown token %q", st.K)
+		}
+	default:
+		w.t.Fatalf("unknown act %q", st.Act)
+	}
+	ret := "null"
+	if r.Halt && len(r.Stack) == 1 && r.Stack[0].Type() == stackitem.BooleanT {
+		bv, _ := r.Stack[0].TryBool()
+		ret = strconv.FormatBool(bv)
+	}
+	ntf, mint := w.events(r.Events)
+	return chain.Rec{"act": st.Act, "S": names, "u": orNil(st.U), "v": orNil(st.V), "amt": st.Amt, "w": st.W, "k": orNil(st.K),
+		"id": orNil(st.ID), "mint": mint, "res": r.Res(), "ret": ret, "ntf": ntf, "fault": r.Fault}
+}
+
+// events: NeoFS notifications in model values, and the GAS minted to tracked accounts (Transfer from null).
+func (w *gworld) events(evs []state.NotificationEvent) ([]any, map[string]any) {
+	out := []any{}
+	minted := map[string]*big.Int{}
+	g := gasHash(w.c)
+	nf := w.acct("neofs")
+	mk := func(n, a, b string, amt []int64, id string) map[string]any {
+		return map[string]any{"n": n, "a": a, "b": b, "amt": amt, "id": id}
+	}
+	for _, ev := range evs {
+		it := ev.Item.Value().([]stackitem.Item)
+		if ev.ScriptHash == g && ev.Name == "Transfer" && chain.ItemBytes(it[0]) == nil {
+			if n, ok := w.acctN.toName[hex.EncodeToString(chain.ItemBytes(it[1]))]; ok {
+				if minted[n] == nil {
+					minted[n] = new(big.Int)
+				}
+				minted[n].Add(minted[n], chain.ItemBig(it[2]))
+			}
+			continue
+		}
+		if ev.ScriptHash != nf {
+			continue
+		}
+		switch ev.Name {
+		case "Deposit":
+			out = append(out, mk("Deposit", w.acctN.name(chain.ItemBytes(it[0]), &w.bad), w.acctN.name(chain.ItemBytes(it[2]), &w.bad),
+				w.toL(chain.ItemBig(it[1]), "ntf.deposit"), "nil"))
+		case "Withdraw":
+			out = append(out, mk("Withdraw", w.acctN.name(chain.ItemBytes(it[0]), &w.bad), "nil", w.toL(chain.ItemBig(it[1]), "ntf.withdraw"), "nil"))
+		case "Cheque":
+			out = append(out, mk("Cheque", w.acctN.name(chain.ItemBytes(it[1]), &w.bad), "nil", w.toL(chain.ItemBig(it[2]), "ntf.cheque"),
+				w.idN.name(chain.ItemBytes(it[0]), &w.bad)))
+		case "SetConfig":
+			k := "?" + string(chain.ItemBytes(it[1]))
+			switch string(chain.ItemBytes(it[1])) {
+			case "WithdrawFee":
+				k = "wfee"
+			case "InnerRingCandidateFee":
+				k = "cfee"
+			}
+			out = append(out, mk("SetConfig", k, "nil", w.toL(chain.ItemBig(it[2]), "ntf.setconfig"), w.idN.name(chain.ItemBytes(it[0]), &w.bad)))
+		default:
+			out = append(out, mk(ev.Name, "nil", "nil", []int64{0, 0, 0}, "nil"))
+		}
+	}
+	mint := map[string]any{}
+	for n := range w.h {
+		if b := minted[n]; b != nil {
+			mint[n] = w.toL(b, "mint."+n)
+		} else {
+			mint[n] = []int64{0, 0, 0}
+		}
+	}
+	return out, mint
+}
+
+func vmInt(v []byte) *big.Int {
+	it := stackitem.NewByteArray(v)
+	b, err := it.TryInteger()
+	if err != nil {
+		return nil
+	}
+	return b
+}
+
+func (w *gworld) observe() map[string]any {
+	c := w.c
+	gas := map[string]any{}
+	for n, h := range w.h {
+		gas[n] = w.toL(big.NewInt(c.GAS(h)), "gas."+n)
+	}
+	neo := map[string]any{}
+	for _, n := range append([]string{"alph"}, gasUsers...) {
+		neo[n] = c.NEO(w.h[n])
+	}
+	o := map[string]any{"gas": gas, "neo": neo, "wfee": []int64{0, 0, 0}, "cfee": []int64{0, 0, 0}, "notary": true}
+	cands := []string{}
+	stray := []string{}
+	for k, v := range c.Storage(w.acct("neofs")) {
+		kb, _ := hex.DecodeString(k)
+		ks := string(kb)
+		switch {
+		case ks == "alphabet" || ks == "processingScriptHash" || ks == "ballots":
+		case ks == "notary":
+			o["notary"] = !(len(v) > 0 && v[0] != 0)
+		case ks == "configWithdrawFee":
+			o["wfee"] = w.toL(vmInt(v), "cfg.wfee")
+		case ks == "configInnerRingCandidateFee":
+			o["cfee"] = w.toL(vmInt(v), "cfg.cfee")
+		case strings.HasPrefix(ks, "candidates") && len(kb) == len("candidates")+33:
+			cands = append(cands, w.keyN.name(kb[len("candidates"):], &w.bad))
+		default:
+			stray = append(stray, k)
+		}
+	}
+	sort.Strings(cands)
+	sort.Strings(stray)
+	st, err := c.Call(w.acct("neofs"), "innerRingCandidates")
+	require.NoError(w.t, err)
+	capi := []string{}
+	for _, it := range st[0].Value().([]stackitem.Item) {
+		capi = append(capi, w.keyN.name(structField0(it), &w.bad))
+	}
+	sort.Strings(capi)
+	// what common.InnerRingNodes() will return in the next block
+	st, err = c.Call(w.roles, "getDesignatedByRole", int64(noderoles.NeoFSAlphabet), int64(c.Height()+1))
+	require.NoError(w.t, err)
+	des := st[0].Value().([]stackitem.Item)
+	want := map[string]bool{}
+	for i := 0; i < len(des) && i < len(w.irPubs); i++ {
+		want[hex.EncodeToString(w.irPubs[i])] = true
+	}
+	for _, d := range des {
+		if !want[hex.EncodeToString(chain.ItemBytes(d))] {
+			w.bad = append(w.bad, "designated key outside r1..rN")
+		}
+	}
+	o["cands"], o["candsApi"], o["stray"], o["irN"] = cands, capi, stray, len(des)
+	return o
+}
+
+func runGasScenario(t *testing.T, rec *chain.Recorder, idx int, sc *GScenario, seed int64) {
+	w := newGWorld(t, sc, seed+int64(idx))
+	obs := w.observe()
+	zero := map[string]any{}
+	for n := range w.h {
+		zero[n] = []int64{0, 0, 0}
+	}
+	rec.Emit(chain.Rec{"t": idx, "act": "reset", "S": []string{}, "u": "nil", "v": "nil", "amt": []int64{0, 0, 0}, "w": 0, "k": "nil",
+		"id": "nil", "mint": zero, "res": "HALT", "ret": "null", "ntf": []any{}, "obs": obs, "bad": []string{},
+		"notary": sc.Notary, "skeys": gasKeys[:sc.NS], "nc": sc.NC, "idx": sc.Idx, "ns": sc.NS, "src": sc.Src})
+	for _, st := range sc.Steps {
+		if !sc.Notary && (st.Act == "cheque" || st.Act == "setFee") {
+			continue // vote-collected without Notary: that is MainChainVote (C17)
+		}
+		if !sc.Notary && st.Act == "candRemove" && !slices.Contains(st.S, st.V) {
+			continue
+		}
+		if len(st.Amt) != 3 {
+			st.Amt = []int64{0, 0, 0}
+		}
+		if st.S == nil {
+			st.S = []string{}
+		}
+		w.bad = nil
+		r := w.exec(st)
+		r["obs"] = w.observe()
+		if w.bad == nil {
+			w.bad = []string{}
+		}
+		r["bad"] = w.bad
+		r["t"] = idx
+		rec.Emit(r)
+	}
+}
+
+// ---- random scenarios ----
+
+func gasAmt(whole, frac int64) []int64 { return fromInt0(whole, frac) }
+
+func fromInt0(whole, frac int64) []int64 {
+	b := new(big.Int).Mul(big.NewInt(whole), big.NewInt(1_0000_0000))
+	b.Add(b, big.NewInt(frac))
+	out := make([]int64, 3)
+	m := new(big.Int)
+	for i := 0; i < 3; i++ {
+		b.QuoRem(b, big.NewInt(limbBase), m)
+		out[i] = m.Int64()
+	}
+	return out
+}
+
+func randGasScenario(r *rand.Rand) *GScenario {
+	ncs := []int{1, 3, 4, 7}
+	nc := ncs[r.Intn(len(ncs))]
+	sc := &GScenario{Notary: r.Intn(2) == 0, NS: 1 + r.Intn(3), NC: nc, Idx: r.Intn(nc + 1), Src: "rand"}
+	if r.Intn(4) > 0 && sc.Idx == nc {
+		sc.Idx = r.Intn(nc)
+	}
+	pick := func(xs []string) string { return xs[r.Intn(len(xs))] }
+	depAmts := [][]int64{gasAmt(0, 0), gasAmt(0, 1), gasAmt(0, 2), gasAmt(1, 0), gasAmt(8999, 9999_9999), gasAmt(9000, 0), gasAmt(9000, 1),
+		gasAmt(9001, 0), gasAmt(50000, 0)}
+	anyAmt := func() []int64 {
+		switch r.Intn(4) {
+		case 0:
+			return depAmts[r.Intn(len(depAmts))]
+		case 1:
+			return gasAmt(0, r.Int63n(1000))
+		case 2:
+			return gasAmt(r.Int63n(9000), r.Int63n(1_0000_0000))
+		default:
+			return gasAmt(0, r.Int63n(1_000_000_000_000))
+		}
+	}
+	me := "m" + strconv.Itoa(sc.Idx)
+	sigOr := func(natural string) []string {
+		switch r.Intn(10) {
+		case 0:
+			return []string{"X"}
+		case 1:
+			return []string{}
+		case 2:
+			return []string{pick([]string{"ALPHA", "CMT", "STORED", "m0", "m1", "u1", "c1"})}
+		default:
+			return []string{natural}
+		}
+	}
+	n := 12 + r.Intn(24)
+	emitPhase := r.Intn(2) == 0
+	if emitPhase {
+		sc.Steps = append(sc.Steps, GStep{Act: "designate", S: []string{"CMT"}, W: int64(1 + r.Intn(7))})
+		sc.Steps = append(sc.Steps, GStep{Act: "pay", S: []string{"u1"}, U: "u1", V: "alph", W: int64(1 + r.Intn(500)), K: "NEO"})
+	}
+	for i := 0; i < n; i++ {
+		k := r.Intn(24)
+		if emitPhase && k < 12 {
+			k = 12 + r.Intn(12)
+		}
+		switch {
+		case k < 5:
+			u := pick(gasUsers)
+			sc.Steps = append(sc.Steps, GStep{Act: "deposit", S: []string{u}, U: u, V: pick(gasUsers), Amt: anyAmt(),
+				K: pick([]string{"none", "none", "empty", "h20", "h20", "b19", "b21", "magic"})})
+		case k < 8:
+			u := pick(gasUsers)
+			sc.Steps = append(sc.Steps, GStep{Act: "withdraw", S: sigOr(u), U: u, W: []int64{-1, 0, 1, r.Int63n(9001), 8999, 9000, 9001}[r.Intn(7)]})
+		case k < 10:
+			amt := anyAmt()
+			if r.Intn(2) == 0 {
+				amt = gasAmt(0, r.Int63n(1000))
+			}
+			sc.Steps = append(sc.Steps, GStep{Act: "cheque", S: sigOr("ALPHA"), V: pick(gasUsers), Amt: amt, ID: pick([]string{"i1", "i2"})})
+		case k < 12:
+			c := pick(gasCands)
+			act := pick([]string{"candAdd", "candAdd", "candRemove"})
+			nat := c
+			if act == "candRemove" && r.Intn(3) == 0 {
+				nat = "STORED"
+			}
+			sc.Steps = append(sc.Steps, GStep{Act: act, S: sigOr(nat), V: c})
+		case k < 13:
+			sc.Steps = append(sc.Steps, GStep{Act: "setFee", S: sigOr("ALPHA"), K: pick([]string{"wfee", "cfee"}),
+				Amt: [][]int64{gasAmt(0, 0), gasAmt(0, 1), gasAmt(0, 100_0000), gasAmt(1, 0), gasAmt(5, 5), gasAmt(200, 0)}[r.Intn(6)], ID: "i1"})
+		case k < 14:
+			sc.Steps = append(sc.Steps, GStep{Act: "designate", S: sigOr("CMT"), W: int64(1 + r.Intn(7))})
+		case k < 17:
+			u := pick(gasUsers)
+			amts := [][]int64{gasAmt(0, 0), gasAmt(0, 1), gasAmt(0, 2), gasAmt(0, 3), gasAmt(0, r.Int63n(200)), gasAmt(0, r.Int63n(1_000_000_000_000)),
+				gasAmt(r.Int63n(10000), r.Int63n(1_0000_0000))}
+			sc.Steps = append(sc.Steps, GStep{Act: "pay", S: []string{u}, U: u, V: "alph", Amt: amts[r.Intn(len(amts))], K: "GAS"})
+		case k < 20:
+			sc.Steps = append(sc.Steps, GStep{Act: "emit", S: sigOr(me)})
+		case k < 21:
+			u := pick(gasUsers)
+			sc.Steps = append(sc.Steps, GStep{Act: "pay", S: []string{u}, U: u, V: pick(gasCtrs), W: []int64{0, 1, 5, 100, 5000}[r.Intn(5)], K: "NEO"})
+		case k < 22:
+			u := pick(gasUsers)
+			sc.Steps = append(sc.Steps, GStep{Act: "pay", S: []string{u}, U: u, V: pick([]string{"proc", "proxy"}), Amt: anyAmt(), K: "GAS"})
+		default:
+			u := pick(gasUsers)
+			sc.Steps = append(sc.Steps, GStep{Act: "pay", S: []string{u}, U: u, V: pick(gasCtrs), Amt: anyAmt(), K: pick([]string{"FOREIGN", "DIRECT"})})
+		}
+	}
+	return sc
+}
+
+// ---- traps ----
+
+func gasTraps() []*GScenario {
+	var out []*GScenario
+	u1 := []string{"u1"}
+	for _, notary := range []bool{true, false} {
+		// deposit bounds and receiver data, fees, cheques larger/equal/smaller than the balance
+		sc := &GScenario{Notary: notary, NS: 3, NC: 3, Idx: 0, Src: "trap:bounds"}
+		for _, a := range [][]int64{gasAmt(0, 0), gasAmt(0, 1), gasAmt(8999, 9999_9999), gasAmt(9000, 0), gasAmt(9000, 1), gasAmt(9001, 0)} {
+			for _, k := range []string{"none", "h20", "b21"} {
+				sc.Steps = append(sc.Steps, GStep{Act: "deposit", S: u1, U: "u1", V: "u2", Amt: a, K: k})
+			}
+		}
+		sc.Steps = append(sc.Steps, GStep{Act: "deposit", S: u1, U: "u1", V: "u2", Amt: gasAmt(3, 0), K: "magic"},
+			GStep{Act: "deposit", S: u1, U: "u1", V: "u2", Amt: gasAmt(99999, 0), K: "none"},
+			GStep{Act: "deposit", S: u1, U: "u1", V: "u2", Amt: gasAmt(0, 7), K: "empty"},
+			GStep{Act: "deposit", S: u1, U: "u1", V: "u2", Amt: gasAmt(0, 7), K: "b19"})
+		for _, wv := range []int64{-1, 0, 1, 9000, 9001} {
+			sc.Steps = append(sc.Steps, GStep{Act: "withdraw", S: u1, U: "u1", W: wv})
+		}
+		sc.Steps = append(sc.Steps, GStep{Act: "withdraw", S: []string{"u2"}, U: "u1", W: 5},
+			GStep{Act: "setFee", S: []string{"ALPHA"}, K: "wfee", Amt: gasAmt(0, 0), ID: "i1"}, GStep{Act: "withdraw", S: u1, U: "u1", W: 5},
+			GStep{Act: "setFee", S: []string{"CMT"}, K: "wfee", Amt: gasAmt(7, 3), ID: "i1"}, GStep{Act: "withdraw", S: u1, U: "u1", W: 5},
+			GStep{Act: "setFee", S: []string{"ALPHA"}, K: "wfee", Amt: gasAmt(7, 3), ID: "i1"}, GStep{Act: "withdraw", S: u1, U: "u1", W: 5},
+			GStep{Act: "candAdd", S: []string{"c1"}, V: "c1"}, GStep{Act: "candAdd", S: []string{"c1"}, V: "c1"},
+			GStep{Act: "candAdd", S: []string{"X"}, V: "c2"},
+			GStep{Act: "setFee", S: []string{"ALPHA"}, K: "cfee", Amt: gasAmt(101, 0), ID: "i2"}, GStep{Act: "candAdd", S: []string{"c2"}, V: "c2"},
+			GStep{Act: "setFee", S: []string{"ALPHA"}, K: "cfee", Amt: gasAmt(100, 0), ID: "i2"}, GStep{Act: "candAdd", S: []string{"c2"}, V: "c2"},
+			GStep{Act: "candRemove", S: []string{"STORED"}, V: "c2"}, GStep{Act: "candRemove", S: []string{"ALPHA"}, V: "c1"},
+			GStep{Act: "candRemove", S: []string{"c1"}, V: "c1"},
+			GStep{Act: "cheque", S: []string{"ALPHA"}, V: "u2", Amt: gasAmt(17000, 0), ID: "i1"},
+			GStep{Act: "cheque", S: []string{"STORED"}, V: "u2", Amt: gasAmt(1, 0), ID: "i1"},
+			GStep{Act: "cheque", S: []string{"m0"}, V: "u2", Amt: gasAmt(1, 0), ID: "i1"},
+			GStep{Act: "cheque", S: []string{"ALPHA"}, V: "u2", Amt: gasAmt(1, 1), ID: "i1"},
+			GStep{Act: "cheque", S: []string{"ALPHA"}, V: "u2", Amt: gasAmt(99999, 0), ID: "i2"})
+		out = append(out, sc)
+	}
+	// emit: every Inner Ring size, balances 0,1,2,3 and all residues around a multiple of 16N, wrong invokers, foreign payments
+	for n := 1; n <= 7; n++ {
+		nc := []int{1, 3, 4, 7, 3, 4, 7}[n-1]
+		idx := (n - 1) % nc
+		me := []string{"m" + strconv.Itoa(idx)}
+		sc := &GScenario{Notary: true, NS: 1, NC: nc, Idx: idx, Src: "trap:emit" + strconv.Itoa(n)}
+		sc.Steps = append(sc.Steps, GStep{Act: "emit", S: me}, GStep{Act: "pay", S: u1, U: "u1", V: "alph", Amt: gasAmt(0, 5), K: "GAS"},
+			GStep{Act: "emit", S: me}, // no Inner Ring designated yet
+			GStep{Act: "designate", S: []string{"X"}, W: int64(n)}, GStep{Act: "designate", S: []string{"CMT"}, W: int64(n)},
+			GStep{Act: "emit", S: []string{"X"}}, GStep{Act: "emit", S: []string{"m" + strconv.Itoa((idx+1)%7)}},
+			GStep{Act: "emit", S: []string{"ALPHA"}})
+		for i := 0; i < 4; i++ {
+			sc.Steps = append(sc.Steps, GStep{Act: "emit", S: me}) // 5 -> 3 -> 2 -> 1 -> fault
+		}
+		for d := int64(0); d < 6; d++ {
+			sc.Steps = append(sc.Steps, GStep{Act: "pay", S: u1, U: "u1", V: "alph", Amt: gasAmt(0, int64(16*n)*3+d), K: "GAS"}, GStep{Act: "emit", S: me})
+		}
+		sc.Steps = append(sc.Steps, GStep{Act: "pay", S: u1, U: "u1", V: "alph", W: 700, K: "NEO"},
+			GStep{Act: "pay", S: u1, U: "u1", V: "alph", Amt: gasAmt(9999, 9999_9999), K: "GAS"}, GStep{Act: "emit", S: me},
+			GStep{Act: "pay", S: u1, U: "u1", V: "alph", W: 0, K: "NEO"}, GStep{Act: "emit", S: me},
+			GStep{Act: "pay", S: u1, U: "u1", V: "alph", Amt: gasAmt(0, 999_999_999_999), K: "GAS"}, GStep{Act: "emit", S: me}, GStep{Act: "emit", S: me})
+		for _, t := range gasCtrs {
+			for _, k := range []string{"FOREIGN", "DIRECT", "NEO"} {
+				sc.Steps = append(sc.Steps, GStep{Act: "pay", S: u1, U: "u1", V: t, Amt: gasAmt(0, 5), W: 2, K: k})
+			}
+		}
+		sc.Steps = append(sc.Steps, GStep{Act: "pay", S: u1, U: "u1", V: "proxy", Amt: gasAmt(0, 5), K: "GAS"},
+			GStep{Act: "pay", S: u1, U: "u1", V: "proc", Amt: gasAmt(2, 5), K: "GAS"})
+		out = append(out, sc)
+	}
+	// Alphabet contract whose index is outside the committee
+	out = append(out, &GScenario{Notary: true, NS: 1, NC: 3, Idx: 3, Src: "trap:emitidx", Steps: []GStep{
+		{Act: "designate", S: []string{"CMT"}, W: 2}, {Act: "pay", S: u1, U: "u1", V: "alph", Amt: gasAmt(1, 0), K: "GAS"},
+		{Act: "emit", S: []string{"m3"}}, {Act: "emit", S: []string{"m2"}}, {Act: "emit", S: []string{"m0"}}}})
+	return out
+}
+
 func driveGas(t *testing.T, rec *chain.Recorder, raw []json.RawMessage, traps bool, nrand int, r *rand.Rand, seed int64, shard, nshard int) int {
-	return 0
+	var scs []*GScenario
+	for _, m := range raw {
+		sc := &GScenario{}
+		require.NoError(t, json.Unmarshal(m, sc))
+		if sc.Src == "" {
+			sc.Src = "tlc"
+		}
+		if sc.NC == 0 {
+			sc.NC, sc.NS = 1, 1
+		}
+		scs = append(scs, sc)
+	}
+	if traps {
+		scs = append(scs, gasTraps()...)
+	}
+	for i := 0; i < nrand; i++ {
+		scs = append(scs, randGasScenario(r))
+	}
+	for i, sc := range scs {
+		if i%nshard != shard {
+			continue
+		}
+		runGasScenario(t, rec, i, sc, seed)
+	}
+	return len(scs)
 }
